@@ -24,40 +24,47 @@ import vlib
 
 EH_KINDS = ["unset", "statusbody", "bodyonly", "nothing", "headers", "nilhandler"]
 ERR_CLASSES = ["plain", "canceled", "deadline", "reqcancelled"]
-NEGATIVES = ["headersFirst", "noReset", "bufferInErrorPath", "statusInErrorPath", "nilFallsThrough", "silentOnCanceled"]
+CTYPES = ["default", "htmlcharset", "json", "eventstream", "empty"]
+NEGATIVES = ["headersFirst", "noReset", "bufferInErrorPath", "statusInErrorPath", "nilFallsThrough", "silentOnCanceled", "sseStreams"]
 
 
 def main():
     ck = vlib.Check("C11", "model_checking")
     thorough = ck.tier == "thorough"
     maxk = 5 if thorough else 3
+    maxreq = 3 if thorough else 2
 
     def cfg(name, variant=None):
-        text = open(os.path.join(vlib.SPEC, name)).read().replace("MaxK = 3", "MaxK = %d" % maxk)
+        text = open(os.path.join(vlib.SPEC, name)).read().replace("MaxK = 3", "MaxK = %d" % maxk).replace("MaxReq = 3", "MaxReq = %d" % maxreq)
         if variant:
             text = text.replace('"headersFirst"', '"%s"' % variant)
         return text
 
     # --- MC -------------------------------------------------------------------------------------
-    mc = vlib.tlc("Handler", "mc.cfg", files={"mc.cfg": cfg("Handler_mc.cfg")}, workers=8, timeout=900,
+    import concurrent.futures as cf
+    pool = cf.ThreadPoolExecutor(max_workers=10)
+    f_gen = pool.submit(vlib.tlc, "Handler", "gen.cfg", files={"gen.cfg": cfg("Handler_gen.cfg")}, workers=1, timeout=900)
+    f_negs = {v: pool.submit(vlib.tlc, "Handler", "neg-%s.cfg" % v, files={"neg-%s.cfg" % v: cfg("Handler_neg.cfg", v)}, workers=2, timeout=300)
+              for v in NEGATIVES}
+    mc = vlib.tlc("Handler", "mc.cfg", files={"mc.cfg": cfg("Handler_mc.cfg")}, workers=6, timeout=900,
                   coverage=thorough)
     if not mc.ok:
         raise vlib.InfraError("Handler model does not satisfy its invariants (%s): spec and code model disagree" % mc.violated)
     if thorough and mc.coverage_zero:
         raise vlib.InfraError("spec actions never taken: %s" % mc.coverage_zero)
-    ck.add_tlc(mc, "Handler_mc MaxK=%d MaxReq=3" % maxk)
+    ck.add_tlc(mc, "Handler_mc MaxK=%d MaxReq=%d" % (maxk, maxreq))
     for v in NEGATIVES:
-        neg = vlib.tlc("Handler", "neg.cfg", files={"neg.cfg": cfg("Handler_neg.cfg", v)}, workers=4, timeout=300)
+        neg = f_negs[v].result()
         if neg.violated != "AllOrNothing":
             raise vlib.InfraError("negative config Variant=%s was not rejected (%s): the invariant is vacuous" % (v, neg.violated))
     ck.set("negative_configs_rejected", NEGATIVES)
 
     # --- GEN: every terminal state replayed on the real handler ---------------------------------
-    gen = vlib.tlc("Handler", "gen.cfg", files={"gen.cfg": cfg("Handler_gen.cfg")}, workers=1, timeout=900)
+    gen = f_gen.result()
     edges = gen.tagged("EDGE")
-    nconf = 3 * 2 * len(EH_KINDS) * 2 * (maxk + 1) * (1 + len(ERR_CLASSES))
-    # per configuration: request 1 on an empty pool, requests 2 and 3 (streamed: pool empty or not; buffered: not empty)
-    expected = nconf * 4
+    nhalf = 3 * len(CTYPES) * len(EH_KINDS) * (maxk + 1) * (1 + len(ERR_CLASSES))     # per streaming setting
+    # per configuration: request 1 on an empty pool, later requests (streamed: pool empty or not; buffered: not empty)
+    expected = nhalf * (1 + 2 * (maxreq - 1)) + nhalf * maxreq
     if not gen.ok or len(edges) != expected:
         raise vlib.InfraError("terminal-state emission incomplete: %d Finish edges, expected %d" % (len(edges), expected))
     if gen.distinct != mc.distinct:
@@ -79,7 +86,8 @@ def main():
     binp = vlib.go_build("./c11", "c11")
 
     # binding self-test: corrupt one predicted field of a buffered case -> the harness must report exactly that case
-    bad = [dict(e) for e in edges if not e["cfg"]["stream"] and (not e["cfg"]["fail"] or e["cfg"]["ecls"] == "canceled")][:200]
+    bad = [dict(e) for e in edges if not e["cfg"]["stream"] and e["cfg"]["ctype"] == "default" and e["cfg"]["k"] >= 1
+           and (not e["cfg"]["fail"] or e["cfg"]["ecls"] == "canceled")][:200]
     k = next(j for j, e in enumerate(bad) if not e["cfg"]["stream"] and not e["cfg"]["fail"] and e["cfg"]["k"] >= 1)
     bad[k] = json.loads(json.dumps(bad[k]))
     bad[k]["final"]["status"] = 202
@@ -123,16 +131,18 @@ def main():
     ck.set("branches", s["branches"])
     ck.set("traces_validated_against_impl", s["cases"])
     ck.set("exhaustive", True)
-    ck.set("bounds", {"MaxK": maxk, "MaxReq": 3, "status": [0, 201, 404], "content_type": 2, "error_handler": len(EH_KINDS),
+    ck.set("bounds", {"MaxK": maxk, "MaxReq": maxreq, "status": [0, 201, 404], "content_type": CTYPES, "error_handler": len(EH_KINDS),
                       "streaming": 2, "error_classes": ERR_CLASSES, "chunk_size_profiles": 4, "rounds": rounds})
-    ck.set("rule", "every Status{unset,201,404} x ContentType{default,custom} x ErrorHandler{unset,status+body,body only,nothing,headers,returns nil handler} "
+    ck.set("rule", "every Status{unset,201,404} x ContentType{not set, text/html; charset=utf-8, application/json, text/event-stream, empty string} x ErrorHandler{unset,status+body,body only,nothing,headers,returns nil handler} "
                    "x Streaming x component(k<=MaxK chunks, ok / fails with a plain error, an error wrapping context.Canceled, one wrapping "
-                   "context.DeadlineExceeded, or ctx.Err() of a really cancelled request context) x request index 1..3 x pool state; each replayed with 4 chunk-size "
+                   "context.DeadlineExceeded, or ctx.Err() of a really cancelled request context) x request index 1..MaxReq x pool state; each replayed with 4 chunk-size "
                    "profiles through ResponseRecorder and a real net/http server+client, in emitted order and in seeded shuffled orders "
                    "(request sequences over the real buffer pool)")
     ck.assume("net/http ResponseWriter rules as modelled: first Write implies 200, header map frozen at WriteHeader, http.Error sets text/plain and 500")
     ck.assume("a panic of ServeHTTP is a terminal outcome: net/http recovers it, logs it and closes the connection without finishing the "
               "response (observed through the real server transport); in buffered mode nothing has been committed at that point")
+    ck.assume("content types htmlcharset / json / empty differ from the default only in the header value: replayed with one chunk profile; "
+              "default and text/event-stream get every profile, the generated wrapper and the shuffled rounds")
     ck.assume("error class reqcancelled: the request context is cancelled before the handler renders; the response is still observed "
               "(recorder / a server-side cancelled context); a mismatch without document bytes for that class is drift, not a violation")
     ck.assume("the component writes directly to the io.Writer it is given (func component); real generated code around it is exercised in buffered mode")
